@@ -132,6 +132,17 @@ func translateDecoderReset(repo string) (map[string]string, error) {
 	if loops != 1 {
 		return nil, fmt.Errorf("PeekFileId: expected exactly one loop, found %d", loops)
 	}
+	// ... and does it report a message that ran past the end of the sequence (d.cur > d.fileHeader.DataSize, or the mirror image)?
+	overrun := false
+	ast.Inspect(pf.Body, func(n ast.Node) bool {
+		if be, ok := n.(*ast.BinaryExpr); ok {
+			l, r := selectorPath(be.X), selectorPath(be.Y)
+			if (be.Op == token.GTR && l == "d.cur" && r == "d.fileHeader.DataSize") || (be.Op == token.LSS && r == "d.cur" && l == "d.fileHeader.DataSize") {
+				overrun = true
+			}
+		}
+		return true
+	})
 	// encoder: does compressTimestampIntoHeader keep the last written timestamp and refuse to compress outside its window?
 	ef, err := parser.ParseFile(fset, filepath.Join(repo, "encoder/encoder.go"), nil, 0)
 	if err != nil {
@@ -228,6 +239,7 @@ func translateDecoderReset(repo string) (map[string]string, error) {
 	fmt.Fprintf(&sb, "Definition reset_clears_developer_tables : bool := %s.\n", b(clearsDev))
 	fmt.Fprintf(&sb, "Definition integrity_drops_buffer : bool := %s.\n", b(dropsBuf))
 	fmt.Fprintf(&sb, "Definition peekfileid_bounded : bool := %s.\n", b(bounded))
+	fmt.Fprintf(&sb, "Definition peekfileid_checks_overrun : bool := %s.\n", b(overrun))
 	// (*Decoder).Reset: a full reset also clears the byte counter d.n (CheckIntegrity and Next tell a clean end of stream by it)
 	pr := methodOf(f, "Decoder", "Reset")
 	if pr == nil {
